@@ -93,7 +93,9 @@ def run_shard(engine, params, base, first, count, prop, out=None):
                                              "detail": {"n": r["clock_back"]}})
             r.setdefault("viol_count", {})["C19|clock_went_back|kernel:clock-decreased"] = r["clock_back"]
         crash = r.get("crash")
-        if crash:
+        if crash and r.get("expected_crash"):
+            agg["counters"]["expected_rejections_of_injected_out_of_range_index"] += 1
+        elif crash:
             agg["crashed"] += crash.get("count", 1)
             mech = crash_mechanism(crash)
             agg["crash_mech"][mech] += 1
